@@ -215,3 +215,202 @@ register('C17', [l0_suite(['lww']), l1_suite(['plain', 'cb'])],
          ['kv default configuration: int keys, string values; gob/JSON codecs are third-party'])
 register('C01', [l0_suite(['merge_rows', 'merge_values']), l1_suite(['rows'])],
          ['all writers of a prefix declare the same column list'])
+
+# ---------------------------------------------------------------- L2 (SQL)
+def mask_empty_text(toks):
+    """replace 'T x' (empty TEXT) by 'N' — what finding F-C08-1 does to values read back"""
+    out, i = [], 0
+    while i < len(toks):
+        if toks[i] == 'T' and i + 1 < len(toks) and toks[i + 1] == 'x':
+            out.append('N'); i += 2
+        else:
+            out.append(toks[i]); i += 1
+    return out
+
+def split_rows(toks):
+    """tokens of a select observation 'SA|SD ok n <svals...>' -> list of rows (token tuples), or None"""
+    if len(toks) < 3 or toks[1] != 'ok':
+        return None
+    n = int(toks[2]); body = toks[3:]
+    # split svals
+    vals, i = [], 0
+    while i < len(body):
+        if body[i] == 'N':
+            vals.append(('N',)); i += 1
+        else:
+            vals.append((body[i], body[i + 1])); i += 2
+    if n == 0:
+        return []
+    w = len(vals) // n
+    return [tuple(vals[r * w:(r + 1) * w]) for r in range(n)]
+
+def is_subsequence(a, b):
+    it = iter(b)
+    return all(x in it for x in a)
+
+def desc_sparse_excuse(case, got, want):
+    """finding F-C06-2: on a tree with several levels (entries_per_node small) a descending scan
+    may fail or silently omit rows (mast Cursor.Backward). True when [got] is explained by that."""
+    t = case.split()
+    epn = int(t[3]) if len(t) > 3 else 0
+    if epn == 0 or not got or got[0] != 'SD':
+        return False
+    if len(got) > 1 and got[1] == 'err:backward_nil_link':
+        return True
+    rg, rw = split_rows(got), split_rows(want)
+    if rg is None or rw is None:
+        return False
+    return rg != rw and is_subsequence(rg, rw)
+
+def l2_suite(profile, quick=60, thorough=1500, native=True, name=None, extra_monitor=None):
+    nm = name or f'l2-{profile}'
+    def f(ctx):
+        res = Result(f'{nm}', f'L2: random SQL statement programs (profile {profile}: INSERT/UPDATE/DELETE/SELECT with key '
+                     'predicates, ORDER BY, LIMIT, transactions, refresh, version, vacuum) through real SQLite + the s3db extension '
+                     'against a gofakes3 server; outcomes, result rows and version-level requests compared with the Coq model'
+                     + ('; every statement also runs on a native WITHOUT ROWID table (SQLite itself as reference)' if native else '')
+                     + '; non-trivial = distinct program with at least one successful write and one non-empty SELECT')
+        outdir = os.path.join(ctx.out, f'{nm}-{ctx.prop}')
+        n = ctx.n(quick, thorough)
+        r = harness(ctx, 'l2', ctx.seed_for(nm), n, outdir, profile)
+        if r.returncode != 0:
+            res.mismatches.append(dict(suite=res.name, case='harness failed', impl=(r.stderr or r.stdout)[-2000:], model=''))
+            return res
+        cases = open(f'{outdir}/cases.txt').read().splitlines()
+        impl = open(f'{outdir}/impl.txt').read().splitlines()
+        model = open(f'{outdir}/model.txt').read().splitlines()
+        seen = set()
+        for k, c in enumerate(cases):
+            res.evaluations += 1
+            a = impl[k] if k < len(impl) else '<missing>'
+            mline, spec = split_spec(model[k] if k < len(model) else '<missing>')
+            a2, pairs = cmpmod.split_native(a)
+            iops = [x.split() for x in cmpmod.canon(a2, False).split(' ; ')]
+            mops = [x.split() for x in cmpmod.canon(mline, False).split(' ; ')]
+            body = c.split(' ', 2)[2] if c.count(' ') >= 2 else c
+            if body not in seen:
+                seen.add(body)
+                if re.search(r'; ok( nat:ok)? M \[ P', a) and re.search(r'; S[AD] ok [1-9]', a):
+                    res.nontrivial += 1
+            # --- model correspondence, op by op
+            if len(iops) != len(mops):
+                res.mismatches.append(dict(suite=res.name, case=c, impl=' ; '.join(' '.join(x) for x in iops)[:3000], model=' ; '.join(' '.join(x) for x in mops)[:3000]))
+            else:
+                for j, (x, y) in enumerate(zip(iops, mops)):
+                    if x == y:
+                        continue
+                    if desc_sparse_excuse(c, x, y):
+                        kid = known_match(ctx, 'desc_scan_sparse_interior_node')
+                        m = dict(suite=res.name, case=c, op_index=j, impl=' '.join(x), model=' '.join(y)[:300],
+                                 what='descending scan fails or omits rows on a tree with several levels (mast Cursor.Backward)')
+                        if kid:
+                            m['finding'] = kid; res.known_hits.append(m)
+                        else:
+                            res.property_failures.append(m)
+                        continue
+                    res.mismatches.append(dict(suite=res.name, case=c, op_index=j, impl=' '.join(x)[:1500], model=' '.join(y)[:1500]))
+                    break
+            # --- native reference (the property itself for a single writer)
+            for j, (s3, nat) in enumerate(pairs):
+                if nat is None:
+                    continue
+                s3c = s3[:s3.index('M')] if 'M' in s3 else s3
+                if s3c == nat:
+                    continue
+                m = dict(suite=res.name, case=c, op_index=j + 1, impl=' '.join(s3c)[:1500], spec=' '.join(nat)[:1500],
+                         what='s3db table and native SQLite table disagree on the same statement')
+                if desc_sparse_excuse(c, s3c, mask_empty_text(nat)) or desc_sparse_excuse(c, s3c, nat):
+                    kid = known_match(ctx, 'desc_scan_sparse_interior_node')
+                elif mask_empty_text(nat) == s3c:
+                    kid = known_match(ctx, 'empty_text_reads_null')
+                else:
+                    kid = None
+                if kid:
+                    m['finding'] = kid; res.known_hits.append(m)
+                else:
+                    res.property_failures.append(m)
+            if extra_monitor:
+                extra_monitor(ctx, res, c, a, mline, spec)
+            if len(res.samples) < 2 and k % 17 == 3:
+                res.samples.append(dict(case=c[:700], impl=a[:500]))
+        res.stats = read_stats(outdir)
+        return res
+    return f
+
+def parse_sql_ops(case):
+    """sqlhist case line -> list of (kind, conn, key_tokens, extra) for write ops"""
+    t = case.split()
+    i = 6  # id sqlhist ncols epn cache nops
+    ops = []
+    def sval(i):
+        return (t[i],) if t[i] == 'N' else (t[i], t[i + 1])
+    def names(i):
+        n = int(t[i]); return i + 1 + n
+    while i < len(t):
+        k = t[i]
+        if k == 'conn': i += 2
+        elif k == 'create': i = names(names(i + 3))
+        elif k == 'wt': ops.append(('wt', int(t[i + 1]), None, int(t[i + 2]))); i += 3
+        elif k == 'ins':
+            c = int(t[i + 1]); key = sval(i + 2); j = i + 2 + len(key); n = int(t[j]); j += 1
+            for _ in range(n): j += len(sval(j))
+            ops.append(('ins', c, key, None)); i = names(j)
+        elif k == 'upd':
+            c = int(t[i + 1]); key = sval(i + 2); j = i + 2 + len(key); n = int(t[j]); j += 1
+            partial = False
+            for _ in range(n):
+                if t[j] == '_': partial = True; j += 1
+                else: j += 1 + len(sval(j + 1))
+            ops.append(('upd', c, key, partial)); i = names(j)
+        elif k == 'del':
+            c = int(t[i + 1]); key = sval(i + 2); ops.append(('del', c, key, None)); i = names(i + 2 + len(key))
+        elif k == 'sel':
+            j = i + 3; n = int(t[j]); j += 1
+            for _ in range(n): j += 1 + len(sval(j + 1))
+            i = j + 1
+        elif k in ('begin', 'commit', 'rollback'): i = names(i + 2)
+        elif k == 'refresh': i = names(names(i + 2))
+        elif k == 'version': i += 2
+        elif k == 'vacuum': i = names(i + 3)
+        else: raise ValueError('parse_sql_ops: ' + k)
+    return ops
+
+def c02_monitor(ctx, res, case, impl_line, model_line, spec):
+    if not spec:
+        return
+    a2, _ = cmpmod.split_native(impl_line)
+    iops = [x.split() for x in cmpmod.canon(a2, False).split(' ; ')]
+    for ent in spec:
+        if ':' not in ent:
+            continue
+        idx, want = ent.split(':', 1)
+        idx = int(idx); want = want.split(',')
+        got = iops[idx] if idx < len(iops) else ['<missing>']
+        if got == want:
+            res.stats_spec_equal = getattr(res, 'stats_spec_equal', 0) + 1
+            continue
+        m = dict(suite=res.name, case=case, op_index=idx, impl=' '.join(got)[:1500], spec=' '.join(want)[:1500],
+                 what='merged table differs from the documented conflict rule applied to the set of accepted statements')
+        ops = parse_sql_ops(case)
+        partial = any(o[0] == 'upd' and o[3] for o in ops)
+        dels = {(o[2]) for o in ops if o[0] == 'del'}
+        upd_del = any(o[0] == 'upd' and o[2] in dels for o in ops)
+        kid = None
+        if mask_empty_text(want) == got:
+            kid = known_match(ctx, 'empty_text_reads_null')
+        elif partial:
+            kid = known_match(ctx, 'partial_update_rewrites_row')
+        elif upd_del:
+            kid = known_match(ctx, 'update_resurrects_deleted')
+        if kid:
+            m['finding'] = kid; res.known_hits.append(m)
+        else:
+            res.property_failures.append(m)
+
+register('C06', [l2_suite('single')],
+         ['SQLite re-checks every constraint on rows returned by the cursor (no constraint is marked omit)',
+          'write times set explicitly and non-decreasing', 'TEXT values are valid UTF-8'])
+register('C08', [l2_suite('single')], ['TEXT values are valid UTF-8 (others must be refused)'])
+
+register('C02', [l0_suite(['merge_rows', 'merge_values']), l2_suite('multi', native=False, extra_monitor=c02_monitor)],
+         ['write times set explicitly (second granularity); all writers declare the same columns'])
